@@ -50,6 +50,24 @@ func (s *Syncer) parallelSync(ctx context.Context, cs consensus.State, headers [
 		reqs[i] = Req{base, tip, numBlocks}
 	}
 
+	// fetchBlocks requests n blocks following base; a peer may cap the number
+	// of blocks it serves per request (WithMaxSendBlocks), so keep asking until
+	// all n have arrived.
+	fetchBlocks := func(p *Peer, base types.BlockID, n uint64) ([]types.Block, error) {
+		var blocks []types.Block
+		for uint64(len(blocks)) < n {
+			more, _, err := p.SendV2Blocks(ctx, []types.BlockID{base}, n-uint64(len(blocks)), s.config.SendBlocksTimeout)
+			if err != nil {
+				return nil, err
+			} else if len(more) == 0 || uint64(len(more)) > n-uint64(len(blocks)) {
+				return nil, errors.New("peer returned wrong number of blocks")
+			}
+			blocks = append(blocks, more...)
+			base = more[len(more)-1].ID()
+		}
+		return blocks, nil
+	}
+
 	workFn := func(p *Peer, req Req) (resp Resp) {
 		resp.req = req
 		resp.peer = p
@@ -60,11 +78,9 @@ func (s *Syncer) parallelSync(ctx context.Context, cs consensus.State, headers [
 				return Resp{req: req, peer: p, err: err}
 			}
 			cs, _ = consensus.ApplyBlock(cs, b, consensus.V1BlockSupplement{}, time.Time{})
-			blocks, _, err := p.SendV2Blocks(ctx, []types.BlockID{cs.Index.ID}, req.numBlocks, s.config.SendBlocksTimeout)
+			blocks, err := fetchBlocks(p, cs.Index.ID, req.numBlocks)
 			if err != nil {
 				return Resp{req: req, peer: p, err: err}
-			} else if uint64(len(blocks)) != req.numBlocks {
-				return Resp{req: req, peer: p, err: errors.New("peer returned wrong number of blocks")}
 			} else if blocks[len(blocks)-1].ID() != req.tip.ID {
 				return Resp{req: req, peer: p, err: errors.New("peer returned wrong blocks")}
 			}
@@ -78,11 +94,9 @@ func (s *Syncer) parallelSync(ctx context.Context, cs consensus.State, headers [
 				resp.states = append(resp.states, cs)
 			}
 		} else {
-			blocks, _, err := p.SendV2Blocks(ctx, []types.BlockID{req.base.ID}, req.numBlocks, s.config.SendBlocksTimeout)
+			blocks, err := fetchBlocks(p, req.base.ID, req.numBlocks)
 			if err != nil {
 				return Resp{req: req, peer: p, err: err}
-			} else if uint64(len(blocks)) != req.numBlocks {
-				return Resp{req: req, peer: p, err: errors.New("peer returned wrong number of blocks")}
 			}
 			// verify that blocks match headers
 			headers := headers[req.base.Height-cs.Index.Height:][:req.numBlocks]
